@@ -191,3 +191,11 @@ Definition flat_val (direct : bool) (v : val) : list Z :=
   end.
 Definition flat_ops (direct : bool) (ops : list (N * list val)) : list (N * list Z) :=
   map (fun o => (fst o, flat_map (flat_val direct) (snd o))) ops.
+
+(* ---- name lists (coverage checks) ---- *)
+Definition mem_str (x : string) (l : list string) : bool := existsb (String.eqb x) l.
+Fixpoint nodupb (l : list string) : bool :=
+  match l with [] => true | x :: l' => negb (mem_str x l') && nodupb l' end.
+(* the same names, each exactly once, in any order *)
+Definition same_names (a b : list string) : bool :=
+  nodupb a && nodupb b && forallb (fun n => mem_str n b) a && forallb (fun n => mem_str n a) b.
